@@ -107,6 +107,72 @@ theorem walkGaps_sound (f : Array Bool → Bool) (n : Nat) (tol xm : Rat) :
             exact ih (done ++ [b]) (c + 1, t) r h j hj' hreal'
           · simp [hf] at h
 
+/-! ### E'. the executed walk (incremental vector) succeeds only if the specification walk does -/
+
+theorem oddCount_snoc (i : Nat) (done : List Tagged) (b : Tagged) :
+    oddCount i (done ++ [b]) = (oddCount i done != (b.atom == i)) := by
+  unfold oddCount
+  rw [List.map_append, parity_append]
+  simp [parity_cons, parity_nil]
+
+theorem vecOf_snoc (n : Nat) (done : List Tagged) (b : Tagged) :
+    vecOf n (done ++ [b]) = (vecOf n done).modify b.atom (fun x => !x) := by
+  apply Array.ext
+  · simp [vecOf]
+  · intro i h1 h2
+    have hi : i < n := by simpa [vecOf] using h1
+    rw [Array.getElem_modify]
+    simp only [vecOf, Array.getElem_map, Array.getElem_range]
+    rw [oddCount_snoc]
+    by_cases hb : b.atom = i
+    · simp [hb]
+    · have : (b.atom == i) = false := by simp [hb]
+      simp [hb, this]
+
+theorem walkGapsV_sound (f : Array Bool → Bool) (n : Nat) (tol xm : Rat) :
+    ∀ (rest done : List Tagged) (acc r : Nat × Nat),
+      walkGapsV f tol xm done.getLast? done.length rest (vecOf n done) acc = .inr r →
+      walkGaps f n tol xm done rest acc = .inr r := by
+  intro rest
+  induction rest with
+  | nil =>
+    intro done acc r h
+    obtain ⟨c, t⟩ := acc
+    simp only [walkGapsV] at h
+    simp only [walkGaps]
+    by_cases hf : f (vecOf n done) = true
+    · simp only [hf, if_true] at h ⊢
+      rw [Sum.inr.injEq] at h ⊢; exact h
+    · simp [hf] at h
+  | cons b rest ih =>
+    intro done acc r h
+    obtain ⟨c, t⟩ := acc
+    simp only [walkGapsV] at h
+    simp only [walkGaps]
+    have hlast : (done ++ [b]).getLast? = some b := by simp
+    have hlen : (done ++ [b]).length = done.length + 1 := by simp
+    have hvec := vecOf_snoc n done b
+    cases hg : gapKind tol xm done.getLast? (some b) with
+    | none =>
+      rw [hg] at h
+      simp only at h ⊢
+      apply ih (done ++ [b])
+      rw [hlast, hlen, hvec]; exact h
+    | some thin =>
+      rw [hg] at h
+      cases thin with
+      | true =>
+        simp only at h ⊢
+        apply ih (done ++ [b])
+        rw [hlast, hlen, hvec]; exact h
+      | false =>
+        simp only at h ⊢
+        by_cases hf : f (vecOf n done) = true
+        · simp only [hf, if_true] at h ⊢
+          apply ih (done ++ [b])
+          rw [hlast, hlen, hvec]; exact h
+        · simp [hf] at h
+
 /-! ### F. insertion sort permutes -/
 
 theorem insertByY_perm (xm : Rat) (t : Tagged) : ∀ l, List.Perm (insertByY xm t l) (t :: l) := by
@@ -178,9 +244,11 @@ theorem checkSlab_sound_tol (all : List Tagged) (f : Array Bool → Bool) (n : N
   rw [Bool.and_eq_true] at hord
   obtain ⟨ho0, ho1⟩ := hord
   -- the walk succeeded
-  cases hw : walkGaps f n tol ((x0 + x1) / 2) [] sorted acc with
-  | inl x => rw [hw] at h; cases x <;> simp at h
+  cases hwv : walkGapsV f tol ((x0 + x1) / 2) none 0 sorted (vecOf n []) acc with
+  | inl x => rw [hwv] at h; cases x <;> simp at h
   | inr r' =>
+    have hw : walkGaps f n tol ((x0 + x1) / 2) [] sorted acc = .inr r' :=
+      walkGapsV_sound f n tol ((x0 + x1) / 2) sorted [] acc r' (by simpa using hwv)
     have hperm : List.Perm sorted S := by rw [← hsorted]; exact sortByY_perm _ S
     have hspanS : ∀ t ∈ S, spansSlab t.seg x0 x1 = true := by
       intro t ht; rw [← hS] at ht; exact (List.mem_filter.mp ht).2
